@@ -20,6 +20,16 @@ PROPS = {
                 explanation="status word is a universally quantified integer at every exchange call site"),
     "C11": dict(level="proof", assumptions=COMMON + [A_SEQ], trusted_base=TB,
                 explanation="link faults are outcomes of the exchange contract at every call site"),
+    "C02": dict(level="proof", assumptions=COMMON + [A_DOC, A_BTC, "BIP32Path.__init__ key-id grammar: assumed contract (uninterpreted predicate)"],
+                trusted_base=TB + ["spec/requests.py (structural requirements transcribed from docs/protocol.md)"],
+                explanation="every JSON value is a universally quantified term of an uninterpreted JSON sort"),
+    "C03": dict(level="proof", assumptions=COMMON + [A_SEQ, A_BTC, "A-MEM: a request line is shorter than 2^32 bytes",
+                                                       "scope: requests handled while no link repair is pending, or whose repair succeeds (DESIGN 5.C03)",
+                                                       "json.loads raises only JSONDecodeError / RecursionError / ValueError"],
+                trusted_base=TB + ["spec/server_io.py"],
+                explanation="exceptions are path outcomes; every path out of _RequestHandler.handle is an obligation"),
+    "C09": dict(level="proof", assumptions=COMMON + ["A-PLATFORM: Platform.set was called with a valid platform"],
+                trusted_base=TB, explanation="the whole product of device answers is symbolic; dominance of unlock by its preconditions"),
     "C13": dict(level="proof", assumptions=COMMON + [A_FW], trusted_base=TB + ["spec/firmware.py"],
                 explanation="reply fields are equated with the answers recorded in the ghost log, selectors from the firmware headers"),
 }
